@@ -38,17 +38,17 @@ var vpOwnerFamily = [][]metav1.OwnerReference{
 // vpAnyPod builds a pod with arbitrary owner references and annotations.
 func vpAnyPod(name, uid string, phase corev1.PodPhase) *corev1.Pod {
 	pod := &corev1.Pod{ObjectMeta: metav1.ObjectMeta{Name: name, Namespace: vpNS, UID: types.UID(uid)}}
-	pod.OwnerReferences = vpOwnerFamily[nondetChoice(len(vpOwnerFamily))]
-	nArgs := len(vpCniArgsFamily)
+	nOwners, nArgs := len(vpOwnerFamily), len(vpCniArgsFamily)
 	if verifTier() == 0 {
-		nArgs = 13
+		nOwners, nArgs = 6, 13 // quick: the first 6 owner lists and 13 annotation texts; thorough: all
 	}
+	pod.OwnerReferences = vpOwnerFamily[nondetChoice(nOwners)]
 	switch nondetChoice(3) {
 	case 1:
 		pod.Annotations = map[string]string{}
 	case 2:
 		pod.Annotations = map[string]string{
-			constant.ReleasePolicyAnnotation:   nondetPick("", "immutable", "never", "Never", "x"),
+			constant.ReleasePolicyAnnotation:   nondetPick("", "immutable", "never", "x"),
 			constant.ExtendedCNIArgsAnnotation: vpCniArgsFamily[nondetChoice(nArgs)],
 		}
 		if nondetBool() {
@@ -63,7 +63,7 @@ func vpAnyPod(name, uid string, phase corev1.PodPhase) *corev1.Pod {
 	return pod
 }
 
-// BOUND: topology 0; pod name over {ss-0, x, a-}; owner references over 9 lists (none, StatefulSet, ReplicaSet with/without dash, "-", custom kind, empty names/kinds, two owners); annotations absent / empty / {policy over 5 texts (symbolic), cni args over 13 (quick) or 19 texts (invalid JSON, wrong shapes, reversed, overlapping, boundary and IPv6 ranges, null ip infos), optional pool over 3 texts}; workloads {all present with symbolic replicas/size 0..2, none}; operations Filter (+Bind on an approved node), Bind without Filter, UpdatePod over phase pairs, DeletePod + event handling, syncPodIP of a running pod; then resync and a follow-up call
+// BOUND: topology 0; pod name over {ss-0, x, a-}; owner references over 6 (quick) or 9 lists (none, StatefulSet, ReplicaSet with/without dash, "-", custom kind, empty names/kinds, two owners); annotations absent / empty / {policy over 4 texts (symbolic), cni args over 13 (quick) or 19 texts (invalid JSON, wrong shapes, reversed, overlapping, boundary and IPv6 ranges, null ip infos), optional pool over 3 texts}; workloads {all present with symbolic replicas/size 0..2, none}; operations Filter (+Bind on an approved node), Bind without Filter, UpdatePod over phase pairs, DeletePod + event handling, syncPodIP of a running pod; then resync and a follow-up call
 func VerifC18_q_pluginSurface() {
 	w := vpNewWorld(0, false)
 	if err := w.configure(); err != nil {
@@ -140,4 +140,41 @@ func floatingipWalk(w *vpWorld) {
 	n := nondetChoice(2) + 1
 	visited := floatingip.VerifWalk(n)
 	verifAssert("C18/walk-bounded", visited <= 8, "the range walk visited more addresses than the ranges hold")
+}
+
+
+// BOUND: topologies {0,1}; a statefulset pod or a deployment pod in a sized pool p1 is filtered and bound while one API-server call fails cleanly at a symbolic position 1..12; afterwards resync and the scheduling of another pod must still answer (no lock left held by the failed operation)
+func VerifC18_q_faultThenFollowUp() {
+	w := vpNewWorld(nondetChoice(2), false)
+	if err := w.configure(); err != nil {
+		return
+	}
+	w.setStatefulSet(3)
+	w.setDeployment(3)
+	w.setPool("p1", 2)
+	kind, pool := vpKindSts, ""
+	if nondetBool() {
+		kind, pool = vpKindDp, "p1"
+	}
+	name := vpPodNameOf(kind, 0)
+	w.createPod(vpMakePod(name, "U1", kind, "", pool, ""))
+	w.syncListers()
+	w.faultAt = nondetInt(1, 12)
+	nodes, err := w.filter(name, "n1", "n2", "n3")
+	if err == nil && len(nodes) > 0 {
+		_ = w.bind(name, nodes[0])
+	}
+	w.faultAt = 0
+	verifReach("first-operation-returned")
+	verifAssert("C18/no-lock-held-after-fault", w.noLockHeld(), "a key lock is still held after an operation that hit an API failure")
+	// follow-up calls on the same instance
+	w.resync()
+	other := vpPodNameOf(vpKindSts, 1)
+	w.createPod(vpMakePod(other, "V1", vpKindSts, "", "", ""))
+	w.syncListers()
+	if nodes, err := w.filter(other, "n1", "n2", "n3"); err == nil && len(nodes) > 0 {
+		_ = w.bind(other, nodes[0])
+	}
+	verifReach("follow-up-answered")
+	verifAssert("C18/no-lock-held-after-follow-up", w.noLockHeld(), "a key lock is still held after the follow-up calls")
 }
